@@ -263,4 +263,36 @@ def otlpOKNoPath (exp : Exp) (parse : Parse) (e : OtlpEnv) (opts : List UOpt) (c
   && c.headers == expectedHeaders exp e opts
   && c.endpoint == expectedEndpoint exp parse e opts
 
+/-! ### transport security of the trace/metric exporters: a decision table
+
+`WithInsecure` / `WithTLSClientConfig`-style "secure" options / the scheme of `WithEndpointURL` (last one given wins)
+over `OTEL_EXPORTER_OTLP_<SIGNAL>_INSECURE` over `OTEL_EXPORTER_OTLP_INSECURE` over the scheme of the signal-specific
+endpoint variable over the scheme of the generic endpoint variable over "secure". -/
+
+def optInsecure (parse : Parse) : UOpt → Option Bool
+  | .insecure => some true
+  | .secure => some false
+  | .endpointURL raw => (parse raw).map (fun u => u.scheme != sHttps)
+  | _ => none
+
+/-- an `…_INSECURE` variable: any non-empty value decides; only the word `true` (any case) means insecure -/
+def provInsecureWord (v : Env) : Option Bool := (getEnvValue v).map (fun s => toLower s == sTrue)
+
+/-- an endpoint variable that parses decides by its scheme: `http` and `unix` are clear text, everything else is TLS -/
+def provInsecureScheme (parse : Parse) (v : Env) : Option Bool :=
+  ((getEnvValue v).bind parse).map (fun u => toLower u.scheme == sHttp || toLower u.scheme == sUnix)
+
+def expectedInsecureTM (parse : Parse) (e : OtlpEnv) (opts : List UOpt) : Bool :=
+  match lastSome (optInsecure parse) opts with
+  | some b => b
+  | none => match provInsecureWord e.insS with
+    | some b => b
+    | none => match provInsecureWord e.insG with
+      | some b => b
+      | none => match provInsecureScheme parse e.epS with
+        | some b => b
+        | none => match provInsecureScheme parse e.epG with
+          | some b => b
+          | none => false
+
 end Otel.C20.Spec
